@@ -297,6 +297,10 @@ REBUILD_SHAPES = [
     ("rest longer than a bar at the start", (4, 4), [[(72, ()), (288, ())], [(72, (60,))]]),
     ("rest longer than a bar in the middle", (1, 4), [[(72, (60,)), (216, ())], [(288, ())], [(72, (64,))]]),
     ("note longer than its bar", (2, 4), [[(288, (60,))], [(72, (62,)), (72, (64,))]]),
+    # a track with a MIDI instrument: the writer hangs the rest that is pending before the first note on the bank select
+    ("instrument: leading rest", (4, 4), [(72, ()), (72, (60,)), (144, (64,))]),
+    ("instrument: first bar is a rest", (4, 4), [(288, ()), (144, (60,)), (144, (62,))]),
+    ("instrument: three notes", (4, 4), [(72, (60,)), (72, (62,)), (144, (64,))]),
 ]
 
 
@@ -337,6 +341,7 @@ def rule_rebuild(ctx, rci):
         bar_ticks = 288 * meter[0] // meter[1]
         events = [[0, ev("set_tempo_event", [120])]]
         pending, at = 0, 0
+        announced = False
         if entries and isinstance(entries[0], list):
             starts, flat = set(), []
             for bar_entries in entries:
@@ -355,6 +360,12 @@ def rule_rebuild(ctx, rci):
                 events.append([0, ev("key_signature_event", ["C"])])
                 pending = 0
             if ps:
+                if label.startswith("instrument") and not announced:
+                    # bank select carries the pending delta, then the program change, then the note
+                    events.append([pending, ev("select_bank", [1, 1])])
+                    events.append([0, ev("program_change_event", [1, 5])])
+                    pending = 0
+                    announced = True
                 for k, pnum in enumerate(ps):
                     events.append([pending if k == 0 else 0, ev("note_on", [1, pnum + 12, 64])])
                 for k, pnum in enumerate(ps):
